@@ -249,8 +249,36 @@ def _lemma_total():
     return hyps, pref(nd) == 360
 
 
+def _lemma_moment_magnitude():
+    """for non-negative weights w_j (density times bin width) with positive total and any c_j in [-1, 1] (cos / sin of theta or 2 theta):
+    -sum w <= sum c_j w_j <= sum w, hence the moment (their quotient) lies in [-1, 1]"""
+    import z3
+    w = z3.Function("w_l", T.IntS, T.RealS)
+    c = z3.Function("c_l", T.IntS, T.RealS)
+    nd = z3.Int("nd_l")
+    j = z3.Int("mj")
+    Sw = SumOf(lambda k: w(T.to_z3(k)))
+    Scw = SumOf(lambda k: c(T.to_z3(k)) * w(T.to_z3(k)))
+    Sm = SumOf(lambda k: -w(T.to_z3(k)))
+    hyps = [nd >= 1, z3.ForAll([j], z3.And(w(j) >= 0, c(j) >= -1, c(j) <= 1,
+                                           c(j) * w(j) <= w(j), c(j) * w(j) >= -w(j))),      # the pointwise bound (a product of a factor in [-1,1] and a non-negative weight)
+            Sw(0, nd) > 0]
+    goal = z3.And(Scw(0, nd) <= Sw(0, nd), Scw(0, nd) >= Sm(0, nd), Scw(0, nd) / Sw(0, nd) <= 1)
+    return hyps, goal
+
+
+def _lemma_pointwise_bound():
+    """the pointwise fact used above: -w <= c w <= w for w >= 0 and -1 <= c <= 1"""
+    import z3
+    w, c = z3.Reals("w_p c_p")
+    return [w >= 0, c >= -1, c <= 1], z3.And(c * w <= w, c * w >= -w)
+
+
+LEMMAS_DISC = [Lemma("moment_magnitude_pointwise_bound", _lemma_pointwise_bound, "-w <= c w <= w"),
+               Lemma("moment_magnitude_at_most_one", _lemma_moment_magnitude, "|sum c_j w_j| <= sum w_j, quotient <= 1 (monotone Sum schema)", meta={"sum_monotone": True})]
+
 LEMMAS = [Lemma("bin_widths_prefix_sum_step", _lemma_prefix, "induction step of sum_{j<n} dtheta_j = theta_n - theta_0 on an ascending grid with gaps < 180"),
-          Lemma("bin_widths_sum_to_360", _lemma_total, "with the prefix identity (base case n=0 is the empty sum): total of the wrapped bin widths is 360")]
+          Lemma("bin_widths_sum_to_360", _lemma_total, "with the prefix identity (base case n=0 is the empty sum): total of the wrapped bin widths is 360")] + LEMMAS_DISC
 
 # ---- operations.integrate_spectral_data: the same quadrature for an arbitrary DataArray on the spectral grid
 def _p_isd(dims):
